@@ -1578,6 +1578,98 @@ func (g *c15Gen) applySet(o C15Op) {
 	g.setH = o.HHeight
 }
 
+// c15LargeSets: scripted, monitor-only cases (no model evaluation: the recorded set has more than 100
+// validators) judged by the quorum monitors: commits signed by 2/3 of the FIRST 100 recorded validators
+// but < 2/3 of all (must be refused), by the 0.667 boundary of all (must be accepted), and only by
+// validators beyond position 100
+func c15LargeSets(seed uint64, rep *Report) {
+	type cfg struct {
+		n      int
+		skewed bool
+	}
+	for ci, c := range []cfg{{101, false}, {150, false}, {257, true}} {
+		r := NewRng(seed*31337 + uint64(ci))
+		ce := newC15Env(seed*77003+uint64(ci), 1000+ci, c.n)
+		g := &c15Gen{ce: ce, r: r, tsNext: 1000000000000000000, blk: 10, price: []int64{0, 6500000, 320000, 900, 5}, wantClient: "07-tendermint-0"}
+		do := func(o C15Op) bool {
+			o.Blk = g.blk
+			g.blk++
+			return ce.Do(o, rep)
+		}
+		do(C15Op{Kind: "execs", Execs: []uint64{1, 2}})
+		do(C15Op{Kind: "info", Oracle: true, Chain: "l1chain", Client: "07-tendermint-0", ClientID: 1})
+		for _, p := range []int{0, 1, 2} {
+			do(C15Op{Kind: "mkpair", Pair: p})
+		}
+		set := C15Op{Kind: "hostset", Client: "07-tendermint-0", ClientID: 1, HHeight: 7}
+		total := int64(0)
+		for i := 0; i < c.n; i++ { // ce.Vals is sorted by address = the store's iteration order
+			p := int64(10)
+			if c.skewed {
+				p = 1
+				if i >= 100 {
+					p = 3
+				}
+			}
+			total += p
+			set.Entries = append(set.Entries, c15Entry{Val: i, Power: p})
+		}
+		do(set)
+		g.applySet(set)
+		update := func(note string, vals []int) {
+			ts := g.tsNext
+			g.tsNext += 5000
+			g.jitter = 0
+			o := C15Op{Kind: "oracle", SenderID: 1, Sender: ce.E.User(1).Str, Height: 7, Round: 1, Note: "large-set:" + note}
+			eci := cometabci.ExtendedCommitInfo{Round: o.Round}
+			for _, vi := range vals {
+				u := ce.Vals[vi]
+				ext := ce.encodeExt(g.priceMap(ts, 0))
+				v := C15Vote{Addr: u.Addr, Flag: int32(cmtproto.BlockIDFlagCommit), Ext: ext, Sig: ce.sign(u, ce.Chain, 6, int64(o.Round), ext), Decl: 1, DeclSet: true}
+				ce.finish(&v, o.Height, o.Round)
+				o.Votes = append(o.Votes, v)
+				eci.Votes = append(eci.Votes, cometabci.ExtendedVoteInfo{Validator: cometabci.Validator{Address: v.Addr, Power: 1},
+					VoteExtension: v.Ext, ExtensionSignature: v.Sig, BlockIdFlag: cmtproto.BlockIDFlagCommit})
+			}
+			bz, err := ce.EcCodec.Encode(eci)
+			if err != nil {
+				panic(err)
+			}
+			o.Data, o.CommitOK = bz, true
+			do(o)
+		}
+		// (a) two thirds (67) of the first 100 recorded validators: below two thirds of all
+		var a []int
+		for i := 0; i < 67; i++ {
+			a = append(a, i)
+		}
+		update("two-thirds-of-first-100", a)
+		// (b) only validators beyond position 100
+		var b []int
+		for i := 100; i < c.n; i++ {
+			b = append(b, i)
+		}
+		update("beyond-100-only", b)
+		// (c) the smallest set from the end reaching 0.667 of all: must be accepted
+		var cc []int
+		w := int64(0)
+		for i := c.n - 1; i >= 0 && w*1000 < 667*total; i-- {
+			cc = append(cc, i)
+			w += set.Entries[i].Power
+		}
+		update("boundary-of-all", cc)
+		// (d) everybody
+		var d []int
+		for i := 0; i < c.n; i++ {
+			d = append(d, i)
+		}
+		update("all", d)
+		rep.Ops += len(ce.Ops)
+		rep.Cases++
+	}
+	rep.Notes = append(rep.Notes, "3 scripted monitor-only cases with recorded sets of 101, 150 (equal power) and 257 (skewed) validators")
+}
+
 var c15SigCount = map[string]int{}
 
 func init() { register("C15", genC15) }
@@ -1802,6 +1894,7 @@ func genC15(seed uint64, tier string, outdir string) *Report {
 			rep.Sample(map[string]interface{}{"kind": "history (first 9 ops)", "ops": ce.history(8)})
 		}
 	}
+	c15LargeSets(seed, rep)
 	rep.Notes = append(rep.Notes, "power profiles: 0 small, 1 around 2/3 vs 0.667, 2 total tokens in (2^62,2^63) (totalVP*2 wraps), 3 total tokens beyond int64, 4 tiny incl. zero power")
 	writeShards(outdir, "C15", c15CaseHeader, "run_ocase", "ocase", texts, 8, rep)
 	return rep
